@@ -30,6 +30,9 @@ let bop_of_string (s : string) : bop =
   | ["M"; n; l] -> BModule (ustr_of_hex n, nat_of_int (int_of_string l))
   | ["D"; l] -> BDefault (nat_of_int (int_of_string l))
   | ["R"; n] -> BRemove (ustr_of_hex n)
+  | ["F"; h] -> BFrom (ustr_of_hex h)
+  | ["I"; h] -> BInsertFrom (ustr_of_hex h)
+  | ["V"; l] -> BLevel (nat_of_int (int_of_string l))
   | _ -> failwith ("bop: " ^ s)
 
 let run_specb_case (toks : string list) : string =
